@@ -18,6 +18,12 @@ package main
 //              (`x := v[k]`, `for _, x := range v`) -- writes only
 //   local.x / deref  writes through a local map/slice/pointer of unknown origin
 //
+// f_init_only = the function is NOT reachable (through calls or function-value references) from an exported
+// function/method, a closure that is stored somewhere, or a package-level initialiser: it can run only from
+// init (or not at all).  Calls through interfaces go to the pseudo function "iface:<method>" (all concrete
+// methods of that name), calls through function values to "dyn" (all stored closures); closures that are
+// called, deferred, passed as an argument or bound to a local that is only ever called are walked in place.
+//
 // The analysis is syntactic (go/ast) with go/types used ONLY to resolve identifiers, field owners and method
 // receivers of package-local types; imports are replaced by empty packages (no dependence on the
 // environment), type errors caused by that are ignored.  Unsupported shapes fail the generation (fail closed):
